@@ -25,6 +25,8 @@ def jobs(tier):
     if not q: mk('qrw_W_R_Wt_R', 4, 10, [W, R, W, R], timeout=4000, mem_gb=12)
     if not q:
         mk('qrw_sym3', 3, 8, [S, S, S], timeout=6000, mem_gb=44)
-    # rwlock (USE_RWLOCK, on kernel contract K with the real mutex+cv inlined): 2 lockers x 6 slices = 40M variables / 182M clauses, SAT out of memory
-    # -> not registered; see DESIGN 7.5.  if os.environ.get('VERIF_EXPERIMENTAL'): mk('rw_W_R', 2, 6, [W, R], extra=['USE_RWLOCK'], timeout=1500, mem_gb=24)
+    mk('rw_W_R', 2, 6, [W, R], extra=['USE_RWLOCK'], timeout=900, mem_gb=10)
+    mk('rw_R_W', 2, 6, [R, W], extra=['USE_RWLOCK'], timeout=900, mem_gb=10)
+    mk('rw_sym2', 2, 7, [S, S], extra=['USE_RWLOCK'], timeout=900, mem_gb=12)
+    if not q: mk('rw_sym3', 3, 9, [S, S, S], extra=['USE_RWLOCK'], timeout=6000, mem_gb=30)
     return J
